@@ -155,9 +155,11 @@ JANET_CORE_FN(cfun_io_fopen,
     const uint8_t *fname = janet_getstring(argv, 0);
     const uint8_t *fmode;
     int32_t flags;
-    if (argc == 2) {
+    if (argc >= 2 && !janet_checktype(argv[1], JANET_NIL)) {
         fmode = janet_getkeyword(argv, 1);
         flags = checkflags(fmode);
+        /* A repeated flag made checkflags stop early, before the flags (and sandbox checks) behind it */
+        if (flags < 0) janet_panicf("invalid file mode %v: repeated flag", argv[1]);
     } else {
         fmode = (const uint8_t *)"r";
         janet_sandbox_assert(JANET_SANDBOX_FS_READ);
